@@ -121,6 +121,16 @@ def cycle(rec, pvl, t0, src, wit0, rng):
             if len(diff) == 4:      # a leaf: say what kind of value changed into what
                 f2["value"] = describe(diff[2], dialect)
                 f2["became"] = type(diff[3]).__name__
+                if isinstance(diff[2], (list, set, frozenset)) or \
+                        type(diff[2]).__name__ == "Quantity":
+                    # inside a sequence / set / quantity: is a string that
+                    # looks like a zoned time the ONLY thing that changed?
+                    a = _neutralise(diff[2], dialect, True)
+                    b = _neutralise(diff[3], dialect, False)
+                    if a != diff[2] and compare(a, b, rules_for(dialect, "default")) is None:
+                        f2["value"] = "str:time-with-zone-offset-like"
+                        f2["became"] = "time"
+                        f2["inside"] = type(diff[2]).__name__
             else:
                 f2.update(_dash_block_features(m1, t1))
             rec.violation(CHECK, dialect, "second-load-differs", f2, wit,
@@ -146,6 +156,27 @@ def cycle(rec, pvl, t0, src, wit0, rng):
                 continue
             rec.count("equal_up_to_set_order")
         rec.count(f"stable[{dialect}]")
+
+
+def _neutralise(x, dialect, orig_side):
+    """Strings that look like a time with a zone offset (original side) and
+    zoned times (loaded side) replaced by one marker."""
+    import datetime as dt
+    from ..roundtrip import describe_str
+    if isinstance(x, list):
+        return [_neutralise(v, dialect, orig_side) for v in x]
+    if isinstance(x, (set, frozenset)):
+        return type(x)(_neutralise(v, dialect, orig_side) for v in x)
+    if type(x).__name__ == "Quantity":
+        return type(x)(_neutralise(x.value, dialect, orig_side), x.units)
+    if orig_side and isinstance(x, str) and \
+            describe_str(x, dialect) == "str:time-with-zone-offset-like":
+        return "\0ZONED"
+    if not orig_side and isinstance(x, (dt.time, dt.datetime)) and \
+            x.tzinfo is not None and x.utcoffset() is not None and \
+            x.utcoffset().total_seconds() != 0:
+        return "\0ZONED"
+    return x
 
 
 def _dash_block_features(m1, t1):
